@@ -30,6 +30,7 @@ fn cfg(reliable: Option<u64>, rto_ms: u64, rm: u32, rc: u32, mech: Mech, fingerp
         mech,
         user: "enum-user".into(),
         password: "enum-password-0123456789".into(),
+        password_raw: "enum-password-0123456789".into(),
         fingerprint,
         max_transactions: limit,
     }
